@@ -101,26 +101,25 @@ theorem toV_sukfD {inv : InvFn ℝ} (R : SNoise ℝ (nb * bs) bs) (Y : Mat ℝ (
 /-! ### One component: serial = standard -/
 
 section comp
-variable (inv : InvFn ℝ) (R : SNoise ℝ (nb * bs) bs) (Rfull : Mat ℝ (nb * bs) (nb * bs))
+variable (inv : InvFn ℝ) (nc : Nat) (R : SNoise ℝ (nb * bs) bs) (Rfull : Mat ℝ (nb * bs) (nb * bs))
   (m : Vec ℝ n) (P : Mat ℝ n n) (X : Mat ℝ n s) (Yp : Mat ℝ (nb * bs) s) (wm wc : Vec ℝ s) (y : Vec ℝ (nb * bs))
 
 /-- mean-shifted propagated points `Yo`, input offsets `Xo` (unweighted) -/
 def offY : Mat ℝ (nb * bs) s := subCols Yp (Yp.mulVec wm)
-def offX : Mat ℝ n s := subCols X m
 
-theorem sukf_Y_eq : toM (sukfComp inv R m X Yp wm wc y).Y
+theorem sukf_Y_eq : toM (sukfComp inv nc R m X Yp wm wc y).Y
     = Matrix.of (fun i j => toM (offY Yp wm) i j * Real.sqrt (wc j)) := by
   ext i j; simp [sukfComp, offY, sukfScaleCols, sqrtW_apply]
 
-theorem sukf_Xw_eq : toM (sukfComp inv R m X Yp wm wc y).Xw
-    = Matrix.of (fun i j => toM (offX m X) i j * Real.sqrt (wc j)) := by
+theorem sukf_Xw_eq : toM (sukfComp inv nc R m X Yp wm wc y).Xw
+    = Matrix.of (fun i j => toM (offX nc m X) i j * Real.sqrt (wc j)) := by
   ext i j; simp [sukfComp, offX, sukfScaleCols, sqrtW_apply]
 
-theorem ukf_Pyy_eq : toM (ukfComp inv Rfull m P X Yp wm wc y).Pyy
+theorem ukf_Pyy_eq : toM (ukfComp inv nc Rfull m P X Yp wm wc y).Pyy
     = toM (wOuter (offY Yp wm) wc (offY Yp wm)) + toM Rfull := by
   simp [ukfComp, offY]
 
-theorem ukf_Pxy_eq : toM (ukfComp inv Rfull m P X Yp wm wc y).Pxy = toM (wOuter (offX m X) wc (offY Yp wm)) := by
+theorem ukf_Pxy_eq : toM (ukfComp inv nc Rfull m P X Yp wm wc y).Pxy = toM (wOuter (offX nc m X) wc (offY Yp wm)) := by
   simp [ukfComp, offY, offX]
 
 theorem toM_wOuter {r r' c : Nat} (A : Mat ℝ r c) (w : Vec ℝ c) (B : Mat ℝ r' c) :
@@ -129,36 +128,36 @@ theorem toM_wOuter {r r' c : Nat} (A : Mat ℝ r c) (w : Vec ℝ c) (B : Mat ℝ
 
 /-- with non-negative covariance weights the `√wc`-weighted points reproduce the weighted moments -/
 theorem sukf_moments (hw : ∀ j, 0 ≤ wc j) :
-    let c := sukfComp inv R m X Yp wm wc y
+    let c := sukfComp inv nc R m X Yp wm wc y
     toM c.Y * (toM c.Y)ᵀ = toM (wOuter (offY Yp wm) wc (offY Yp wm)) ∧
-    toM c.Xw * (toM c.Y)ᵀ = toM (wOuter (offX m X) wc (offY Yp wm)) ∧
-    toM c.Xw * (toM c.Xw)ᵀ = toM (wOuter (offX m X) wc (offX m X)) := by
+    toM c.Xw * (toM c.Y)ᵀ = toM (wOuter (offX nc m X) wc (offY Yp wm)) ∧
+    toM c.Xw * (toM c.Xw)ᵀ = toM (wOuter (offX nc m X) wc (offX nc m X)) := by
   simp only [sukf_Y_eq, sukf_Xw_eq, toM_wOuter]
   exact ⟨SUKFProofs.sqrt_scale_outer _ _ _ hw, SUKFProofs.sqrt_scale_outer _ _ _ hw,
     SUKFProofs.sqrt_scale_outer _ _ _ hw⟩
 
 /-- the innovation covariance `Yo W Yoᵀ + R` is positive definite -/
 theorem ukf_Pyy_posDef (hw : ∀ j, 0 ≤ wc j) (hRpd : ∀ j, (toM (R.blockAt j)).PosDef) (hRfull : toM Rfull = R.Rf) :
-    (toM (ukfComp inv Rfull m P X Yp wm wc y).Pyy).PosDef := by
-  rw [ukf_Pyy_eq, hRfull, ← (sukf_moments inv R m X Yp wm wc y hw).1]
-  have h1 : (toM (sukfComp inv R m X Yp wm wc y).Y * (toM (sukfComp inv R m X Yp wm wc y).Y)ᵀ).PosSemidef := by
-    simpa using Matrix.posSemidef_self_mul_conjTranspose (toM (sukfComp inv R m X Yp wm wc y).Y)
+    (toM (ukfComp inv nc Rfull m P X Yp wm wc y).Pyy).PosDef := by
+  rw [ukf_Pyy_eq, hRfull, ← (sukf_moments inv nc R m X Yp wm wc y hw).1]
+  have h1 : (toM (sukfComp inv nc R m X Yp wm wc y).Y * (toM (sukfComp inv nc R m X Yp wm wc y).Y)ᵀ).PosSemidef := by
+    simpa using Matrix.posSemidef_self_mul_conjTranspose (toM (sukfComp inv nc R m X Yp wm wc y).Y)
   exact Matrix.PosDef.posSemidef_add h1 (SUKFProofs.bdiag_posDef _ hRpd)
 
 /-- Serial = standard for one component: covariance, mean; every inverse taken is defined. -/
 theorem sukfComp_eq_ukfComp (hinv : InvCorrect inv) (hw : ∀ j, 0 ≤ wc j)
     (hRpd : ∀ j, (toM (R.blockAt j)).PosDef) (hRfull : toM Rfull = R.Rf)
-    (hX : toM (wOuter (offX m X) wc (offX m X)) = toM P) :
-    toM (sukfComp inv R m X Yp wm wc y).cov = toM (ukfComp inv Rfull m P X Yp wm wc y).cov ∧
-    toV (sukfComp inv R m X Yp wm wc y).mean = toV (ukfComp inv Rfull m P X Yp wm wc y).mean ∧
-    IsUnit (toM (sukfCinv inv R (sukfComp inv R m X Yp wm wc y).Y)) ∧
-    (toM (ukfComp inv Rfull m P X Yp wm wc y).Pyy).PosDef := by
+    (hX : toM (wOuter (offX nc m X) wc (offX nc m X)) = toM P) :
+    toM (sukfComp inv nc R m X Yp wm wc y).cov = toM (ukfComp inv nc Rfull m P X Yp wm wc y).cov ∧
+    toV (sukfComp inv nc R m X Yp wm wc y).mean = toV (ukfComp inv nc Rfull m P X Yp wm wc y).mean ∧
+    IsUnit (toM (sukfCinv inv R (sukfComp inv nc R m X Yp wm wc y).Y)) ∧
+    (toM (ukfComp inv nc Rfull m P X Yp wm wc y).Pyy).PosDef := by
   have hRok : ∀ j, InvOK inv (R.blockAt j) := fun j => hinv _ _ (hRpd j).isUnit
-  have hSpd := ukf_Pyy_posDef inv R Rfull m P X Yp wm wc y hw hRpd hRfull
+  have hSpd := ukf_Pyy_posDef inv nc R Rfull m P X Yp wm wc y hw hRpd hRfull
   have hSu := hSpd.isUnit
-  obtain ⟨mYY, mXY, mXX⟩ := sukf_moments inv R m X Yp wm wc y hw
-  set c := sukfComp inv R m X Yp wm wc y with hc
-  set u := ukfComp inv Rfull m P X Yp wm wc y with hu
+  obtain ⟨mYY, mXY, mXX⟩ := sukf_moments inv nc R m X Yp wm wc y hw
+  set c := sukfComp inv nc R m X Yp wm wc y with hc
+  set u := ukfComp inv nc Rfull m P X Yp wm wc y with hu
   have hS_eq : toM c.Y * (toM c.Y)ᵀ + R.Rf = toM u.Pyy := by rw [hu, ukf_Pyy_eq, hRfull, mYY]
   have hRfu : IsUnit R.Rf := (Rf_inv R hRok).2
   have hSu' : IsUnit (toM c.Y * (toM c.Y)ᵀ + R.Rf) := by rw [hS_eq]; exact hSu
@@ -184,5 +183,38 @@ theorem sukfComp_eq_ukfComp (hinv : InvCorrect inv) (hw : ∀ j, 0 ≤ wc j)
       hSok.eq, hS_eq, hPxy]
 
 end comp
+
+/-! ### Euler-circular state rows -/
+
+theorem sukfDirSub_eq_arg (a b : ℝ) : sukfDirSub a b = Complex.arg (Complex.cos (a - b : ℝ) + Complex.sin (a - b : ℝ) * Complex.I) := by
+  unfold sukfDirSub
+  simp only [transc_atan2, transc_sin, transc_cos]
+  have key : ∀ θ : ℝ, (⟨Real.cos θ, Real.sin θ⟩ : ℂ) = Complex.cos (θ : ℝ) + Complex.sin (θ : ℝ) * Complex.I := by
+    intro θ
+    apply Complex.ext <;> simp [Complex.cos_ofReal_re, Complex.sin_ofReal_re, Complex.cos_ofReal_im, Complex.sin_ofReal_im]
+  rw [key]
+
+/-- `directional_sub` is the plain difference when it lies in `(−π, π]` -/
+theorem sukfDirSub_eq_sub {a b : ℝ} (h : a - b ∈ Set.Ioc (-Real.pi) Real.pi) : sukfDirSub a b = a - b := by
+  rw [sukfDirSub_eq_arg, Complex.arg_cos_add_sin_mul_I h]
+
+/-- and always lies in `(−π, π]` -/
+theorem sukfDirSub_mem (a b : ℝ) : sukfDirSub a b ∈ Set.Ioc (-Real.pi) Real.pi := by
+  rw [sukfDirSub_eq_arg]; exact Complex.arg_mem_Ioc _
+
+theorem offX_zero {n s : Nat} (m : Vec ℝ n) (X : Mat ℝ n s) : offX 0 m X = subCols X m := by
+  ext i j
+  simp [offX, subCols]
+
+/-- sigma points within half a turn of the mean on the circular rows: the offsets are plain differences -/
+theorem offX_eq_subCols {n s : Nat} (nc : Nat) (m : Vec ℝ n) (X : Mat ℝ n s)
+    (h : ∀ (i : Fin n) (j : Fin s), n ≤ i.val + nc → X i j - m i ∈ Set.Ioc (-Real.pi) Real.pi) :
+    offX nc m X = subCols X m := by
+  ext i j
+  simp only [offX, subCols, Mat.of_apply]
+  split
+  · rfl
+  · rename_i hlt
+    exact sukfDirSub_eq_sub (h i j (Nat.le_of_not_lt hlt))
 
 end BFL
